@@ -84,9 +84,11 @@ PLANS = {
     "C12": only_storage("C12"),
     "C09": world(),
     "C10": {
-        "quick": [st("dbg", "conc", 24000, 6, 8, mode="controlled"), st("rel", "conc", 1600, 300, 8, mode="stress")],
+        "quick": [st("dbg", "conc", 24000, 6, 8, mode="controlled"), st("rel", "conc", 1600, 300, 8, mode="stress"),
+                  st("dbg", "conc", 30, 6, 10, mode="enumerate")],
         "thorough": [st("dbg", "conc", 800000, 6, 16, 3000, mode="controlled"), st("rel", "conc", 800000, 6, 16, 3000, mode="controlled"),
                      st("rel", "conc", 60000, 400, 8, 3000, mode="stress", max_threads=16),
+                     st("rel", "conc", 30, 6, 15, 3000, mode="enumerate", three=1, cap=1500000),
                      st("tsan", "conc", 2400, 200, 8, 3000, mode="stress"),
                      st("miri", "conc", 32, 5, 16, 3000, mode="stress", max_threads=4, miri_flags="-Zmiri-many-seeds=0..4")],
     },
@@ -158,7 +160,8 @@ RULES.update({
     "C19": "enumerated grid: 17 storage kind / wrapper combinations x 11 destroying operations (clear, delete_entity, delete_entities, deferred delete + maintain, delete_all, drop(world), drop(world) with queued lazy inserts, lazy overwrite + maintain, refused insert / default placeholder overwrite, lazy remove + maintain, ChangeSet clear / drop / by-value join dropped midway) x panicking destructor call k in {1..6, middle, last}, random populations, then random continuation on the surviving world; "
            "non-trivial = case where the panicking destructor call was neither the first nor the last of >=3 destroyed values",
     "C10": "small concurrent programs (2-4 threads x 1-6 ops in controlled mode; 2-16 threads x hundreds of ops in stress mode) of Entities::create / create_iter / build_entity / delete / is_alive / join and LazyUpdate exec / insert / create_entity on worlds pre-seeded with 0-5 live entities and 0-3 free-list entries, 1-3 concurrent phases each followed by maintain; controlled mode drives the interleaving of the hooked atomic steps with a seeded token-passing scheduler; "
-           "non-trivial (controlled) = schedule with >=1 context switch from a thread stopped between atomic steps into another thread that is also between atomic steps; distinct = distinct recorded schedules",
+           "non-trivial (controlled) = schedule with >=1 context switch from a thread stopped between atomic steps into another thread that is also between atomic steps; distinct = distinct recorded schedules. "
+           "Mode `enumerate` additionally enumerates, depth first, EVERY schedule the scheduler can produce (all orders of the hooked atomic steps and operation boundaries) for 8 two-thread programs x 3 initial allocator states (quick; thorough adds two three-thread programs, capped)",
     "C20": "single-threaded histories (create now / atomic / lazy with components and markers, delete now / atomic / batch, maintain, insert / remove, joins incl. over HashMapStorage with maybe and anti members, mutable join + event stream of a tracked storage, mark, serialise to JSON / RON, load back) replayed (i) in two worlds in lock-step, (ii) in a world driven while unrelated worlds are mutated in between and on another thread, (iii) in 4 (quick) / 8+ (thorough) separate processes in debug and release builds whose per-case transcript hashes are compared by the driver; "
            "non-trivial = history whose transcript includes a join over the hash-map storage and serialisations of >=3 entities; distinct = distinct transcript hashes",
     "C11": "random system graphs (331 system-data shapes over 4 component storages + Entities + Read<LazyUpdate>, random DAG dependencies, barriers, thread-local systems, pools of 1-32 threads, 3-10 dispatches each); "
